@@ -302,4 +302,94 @@ inductive Steps (c : Cfg) : Bool → St → List Sent → St → Prop
   | cons {b : Bool} {st st1 st' : St} {e : Sent} {n : Nat} {es : List Sent} :
       sendPacket c b st = .sent st1 e n → Steps c false st1 es st' → Steps c b st (e :: es) st'
 
+/-! ### several streams on one StreamContext
+
+`RaopPlaybackManager` (pyatv/protocols/raop/__init__.py :105) owns ONE `StreamContext` per
+connected device.  Every `stream_file` call (:335) does, on that same context:
+
+  setup()        a new `StreamClient` (new, empty `PacketFifo`) and a new protocol instance
+                 (new cipher, message counter 0) around the shared context            → `Ctx.stOf`
+  initialize()   `_update_output_properties`: sample_rate / channels / bytes_per_channel  → `Ctx.withRate`
+  send_audio()   `context.reset()` (stream_client.py, first statement after the guard)  → `Ctx.reset`
+                 `_stream_data(...)`                                                   → `loop`
+                 finally: `_packet_backlog.clear()`, close
+  teardown()     `self._context.reset()` (:174), client dropped                        → `Ctx.reset`
+
+`Ctx` holds the StreamContext fields the packet loop reads or writes.  What `reset()`
+(protocols/__init__.py :43) does NOT touch persists from stream to stream, legitimately:
+sample_rate / channels / bytes_per_channel (properties of the receiver, re-read by
+initialize), credentials, password, ports, rtsp_session, volume.  Everything the loop
+itself advances — rtpseq, head_ts, padding_sent — and start_ts / latency is re-initialised
+by `reset()`; the backlog and the cipher counter belong to the per-stream client. -/
+
+structure Ctx where
+  sampleRate : Nat
+  rtpseq : Nat
+  startTs : Int
+  headTs : Int
+  latency : Nat
+  paddingSent : Nat
+  deriving DecidableEq, Repr
+
+/-- `StreamContext.__init__` -/
+def Ctx.fresh : Ctx :=
+  { sampleRate := Gen.C16.defaultSampleRate, rtpseq := 0, startTs := 0, headTs := 0,
+    latency := Gen.C16.latencyBase + Gen.C16.defaultSampleRate, paddingSent := 0 }
+
+/-- `StreamContext.reset()`: `rnd` is what `randrange(2**16)` returns, `now` what
+    `timing.ntp2ts(timing.ntp_now(), sample_rate)` returns. -/
+def Ctx.reset (x : Ctx) (rnd : Nat) (now : Int) : Ctx :=
+  { x with rtpseq := rnd, startTs := now, headTs := now,
+           latency := Gen.C16.latencyBase + x.sampleRate, paddingSent := 0 }
+
+/-- `_update_output_properties` (the part that matters to `reset`: the sample rate). -/
+def Ctx.withRate (x : Ctx) (rate : Nat) : Ctx := { x with sampleRate := rate }
+
+/-- the per-stream constants as `_stream_data` sees them on context `x`. -/
+def Ctx.cfgOf (x : Ctx) (fpp frameSize ssrc : Nat) (wire : Nat → Bytes → Bytes → Bytes) : Cfg :=
+  { fpp := fpp, frameSize := frameSize, latency := x.latency, startTs := x.startTs, ssrc := ssrc, wire := wire }
+
+/-- the loop state at the start of `_stream_data` on context `x` with a new client. -/
+def Ctx.stOf (x : Ctx) (cap : Nat) (src : Bytes) : St :=
+  { src := src, rtpseq := x.rtpseq, headTs := x.headTs, paddingSent := x.paddingSent,
+    backlog := Fifo.empty cap, count := 0 }
+
+/-- the context after `_stream_data` left the loop in state `st`. -/
+def Ctx.after (x : Ctx) (st : St) : Ctx :=
+  { x with rtpseq := st.rtpseq, headTs := st.headTs, paddingSent := st.paddingSent }
+
+/-- one `stream_file` call. -/
+structure StreamSpec where
+  sampleRate : Nat      -- from the receiver's properties (initialize)
+  frameSize : Nat
+  ssrc : Nat
+  wire : Nat → Bytes → Bytes → Bytes
+  src : Bytes
+  comp : List Nat
+  rnd : Nat             -- randrange(2**16) in send_audio's reset
+  now : Int             -- start_ts computed by send_audio's reset
+  rnd' : Nat            -- the same two for teardown's reset
+  now' : Int
+
+/-- `_stream_data` run on the context as it is (no reset): what one stream does to `x`. -/
+def streamOn (fpp cap : Nat) (x : Ctx) (s : StreamSpec) : Run :=
+  loop (x.cfgOf fpp s.frameSize s.ssrc s.wire) (s.src.length + x.latency + 1) s.comp 0 (x.stOf cap s.src)
+
+/-- one `stream_file`: initialize, reset, stream, teardown (reset).  Returns the run and
+    the context left behind. -/
+def streamFile (fpp cap : Nat) (x : Ctx) (s : StreamSpec) : Run × Ctx :=
+  let x1 := (x.withRate s.sampleRate).reset s.rnd s.now
+  let r := streamOn fpp cap x1 s
+  (r, (x1.after r.final).reset s.rnd' s.now')
+
+/-- consecutive `stream_file` calls on one context. -/
+def session (fpp cap : Nat) : Ctx → List StreamSpec → List Run
+  | _, [] => []
+  | x, s :: rest => (streamFile fpp cap x s).1 :: session fpp cap (streamFile fpp cap x s).2 rest
+
+/-- the `Cfg` a stream of the session would have on a brand-new context. -/
+def StreamSpec.cfg (s : StreamSpec) (fpp : Nat) : Cfg :=
+  { fpp := fpp, frameSize := s.frameSize, latency := Gen.C16.latencyBase + s.sampleRate,
+    startTs := s.now, ssrc := s.ssrc, wire := s.wire }
+
 end PyatvModel.C16
